@@ -190,7 +190,21 @@ fn run_strings(ctx: &RunCtx, tier: Tier) -> RunOut {
     }
 }
 
-const PARTS: &[&str] = &["0", "1", "9", "10", "007", "4294967295", "4294967296", "99999999999", ""];
+const PARTS: &[&str] = &[
+    "0",
+    "1",
+    "9",
+    "10",
+    "007",
+    "4294967295",
+    "4294967296",
+    "99999999999",
+    "",
+    // redundant leading zeros: a decimal number however long its spelling (valid / overflowing)
+    "000000000000000000000000000000000000000000001",
+    "00000000000000000000000000000000000004294967295",
+    "00000000000000000000000000000000000004294967296",
+];
 
 fn run_tuples(ctx: &RunCtx) -> RunOut {
     // block = (number of parts, first part)
